@@ -86,8 +86,9 @@ ARG_POOL = (
     ArgDef("ll", L(L(NN(N("Int"))))),
 )
 
-BEHAVIOURS = ("sync", "default", "async", "awaitable", "nested", "gen")
-BEHAVIOUR_WEIGHTS = (5, 3, 5, 3, 2, 2)
+BEHAVIOURS = ("sync", "default", "async", "awaitable", "nested", "gen",
+              "rtapi")
+BEHAVIOUR_WEIGHTS = (5, 3, 5, 3, 2, 2, 2)
 
 
 class FieldDef:
@@ -114,6 +115,17 @@ class SchemaSpec:
         self.behaviours = {}  # (type name, field name) -> behaviour
         self.resolve_type = {}  # abstract name -> "attr" | "fn-type" | "fn-name"
         self.objrepr = "obj"  # "obj" | "dict"
+        # (type, field, argument) -> (python default, literal): an object type
+        # may declare another default than its siblings / its interface
+        self.arg_overrides = {}
+
+    def arg_default(self, tname, fname, a):
+        """(has_default, python value, literal) of argument ``a`` as declared
+        on ``tname``."""
+        o = self.arg_overrides.get((tname, fname, a.name))
+        if o is not None:
+            return True, o[0], o[1]
+        return a.has_default, a.default_py, a.default_lit
 
     def type_fields(self, tname):
         if tname in self.objects:
@@ -161,7 +173,7 @@ class SchemaSpec:
                 impl = " implements " + " & ".join(odef["interfaces"])
             out.append("type %s%s {" % (oname, impl))
             for f in odef["fields"]:
-                out.append("  " + self._field_sdl(f))
+                out.append("  " + self._field_sdl(f, oname))
             out.append("}")
         for uname, members in self.unions.items():
             out.append("union %s = %s" % (uname, " | ".join(members)))
@@ -177,15 +189,16 @@ class SchemaSpec:
             out.append("schema { %s }" % " ".join(parts))
         return "\n".join(out) + "\n"
 
-    def _field_sdl(self, fname):
+    def _field_sdl(self, fname, tname=None):
         f = self.fields[fname]
         args = ""
         if f.args:
             parts = []
             for a in f.args:
                 p = "%s: %s" % (a.name, tstr(a.type))
-                if a.has_default:
-                    p += " = %s" % a.default_lit
+                has, _py, lit = self.arg_default(tname, fname, a)
+                if has:
+                    p += " = %s" % lit
                 parts.append(p)
             args = "(%s)" % ", ".join(parts)
         return "%s%s: %s" % (fname, args, tstr(f.type))
@@ -345,12 +358,20 @@ def gen_schema(st, want_mutation=False, small=False,
         spec.objects["Subscription"] = {"fields": sfields, "interfaces": []}
         spec.subscription = "Subscription"
 
+    # -- per-type argument defaults ------------------------------------------
+    alt = {"s": ("other", '"other"'), "b": (True, "true")}
+    for oname in obj_names:
+        for f in spec.objects[oname]["fields"]:
+            for a in spec.fields[f].args:
+                if a.name in alt and st.chance(1, 4, "arg_override"):
+                    spec.arg_overrides[(oname, f, a.name)] = alt[a.name]
+
     # -- behaviours, type resolution style -----------------------------------
     spec.objrepr = ("obj", "dict")[st.below(2, "objrepr")]
     for tname, tdef in spec.objects.items():
         for f in tdef["fields"]:
             b = BEHAVIOURS[st.weighted(BEHAVIOUR_WEIGHTS, "beh")]
-            if b == "gen" and not is_list(spec.fields[f].type):
+            if b in ("gen", "rtapi") and not is_list(spec.fields[f].type):
                 b = "sync"
             if b == "default" and spec.objrepr == "dict":
                 b = "sync"
@@ -370,7 +391,7 @@ def gen_schema(st, want_mutation=False, small=False,
 # --------------------------------------------------------------------------
 class FieldSel:
     __slots__ = ("name", "alias", "args", "kwargs", "sel", "dirs", "pos",
-                 "ptype", "argspec", "argerr")
+                 "ptype", "argspec", "argerr", "defaulted")
     kind = "field"
 
     def __init__(self, name, alias=None, args=(), kwargs=None, sel=None,
@@ -385,6 +406,7 @@ class FieldSel:
         self.pos = None             # (line, column) filled by render()
         self.ptype = None
         self.argerr = False         # argument coercion fails at execution
+        self.defaulted = ()         # arguments falling back to their default
 
     @property
     def key(self):
@@ -950,11 +972,11 @@ def resolve_op(op, spec):
         fdef = spec.fields[s_.name]
         kw = {}
         argerr = False
+        defaulted = []
         for a in fdef.args:
             src = s_.argspec.get(a.name)
             if src is None:
-                if a.has_default:
-                    kw[a.name] = a.default_py
+                defaulted.append(a)
                 continue
             if src[0] == "lit":
                 kw[a.name] = src[1]
@@ -970,10 +992,24 @@ def resolve_op(op, spec):
                 kw[a.name] = v.py
             elif v.default_lit is not None:
                 kw[a.name] = v.default_py
-            elif a.has_default:
-                kw[a.name] = a.default_py
+            else:
+                defaulted.append(a)
         s_.kwargs = kw
         s_.argerr = argerr
+        s_.defaulted = tuple(defaulted)
+
+
+def effective_kwargs(spec, tname, node):
+    """Resolver-side kwargs of ``node`` when resolved on object type
+    ``tname`` (argument defaults are those declared on that type)."""
+    if not node.defaulted:
+        return node.kwargs
+    kw = dict(node.kwargs)
+    for a in node.defaulted:
+        has, py, _lit = spec.arg_default(tname, node.name, a)
+        if has:
+            kw[a.name] = py
+    return kw
 
 
 # --------------------------------------------------------------------------
